@@ -294,6 +294,10 @@ func (e *Enc) applyContract(st *State, ct *Contract, c *ssa.CallCommon, key stri
 		sc2.bindResults(r.Tuple, sig.Results())
 	}
 	for _, cl := range ct.Ensures {
+		if e.P.usesTrace(cl.Expr, 0) {
+			// statements about the callee's own activation trace say nothing about the caller's trace
+			continue
+		}
 		t, err := sc2.evalBool(cl.Expr)
 		if err != nil {
 			e.unsupported = fmt.Sprintf("call %s: ensures %q: %v", key, cl.Text, err)
@@ -304,7 +308,7 @@ func (e *Enc) applyContract(st *State, ct *Contract, c *ssa.CallCommon, key stri
 	if ct.NoReturn {
 		st.reach = TFalse
 	}
-	e.traceAfterHook(st, c, key, r)
+	e.traceAfter(st, key, sc2)
 	return r
 }
 
@@ -821,4 +825,23 @@ func (e *Enc) callSiteClauses(st *State, c *ssa.CallCommon, key string, args []V
 		}
 		e.oblige("ghost", anchor, clauseProps(cs.Clause, e.autoProps()), st.reach, t, "at call of "+key+": "+cs.Clause.Text, ins.Pos())
 	}
+}
+
+var traceBuiltins = map[string]bool{"ncalls": true, "calleeIs": true, "arg": true, "res": true, "childrenWalked": true}
+
+// usesTrace: the expression mentions the activation trace, directly or through spec functions.
+func (P *Prog) usesTrace(x SExpr, depth int) bool {
+	calls := map[string]bool{}
+	specCalls(x, calls)
+	for c := range calls {
+		if traceBuiltins[c] {
+			return true
+		}
+		if fn := P.Spec.Funs[c]; fn != nil && fn.Body != nil && depth < 6 {
+			if P.usesTrace(fn.Body, depth+1) {
+				return true
+			}
+		}
+	}
+	return false
 }
